@@ -40,6 +40,12 @@ def sizeOfPairs : List (GoVal × GoVal) → Option Nat
       | _, _, _ => none
 end
 
+/-- the number on the first line of `Stat(v, ...)`: `stat` formats `sizeof(v)` into its header line
+    (`AvgOf = 0`); `none` when `v` is nil (the line is "<nil>") -/
+def statHeader : Option GoVal → Option (Option Nat)
+  | none => some none
+  | some v => (sizeOf v).map some
+
 /-- `Of(data)`: `none` argument = nil interface -/
 def sizeOfTop : Option GoVal → Option Nat
   | none => some 0
